@@ -274,6 +274,82 @@ func storeBefore(p *Program, in ssa.Instruction, tf string, pat string) bool {
 	return false
 }
 
+// mayAliasParam: v is the named parameter (or free variable), a sub-slice of it, a phi that may be one of those, or
+// the result of append(x, ...) where x may alias it (append returns the same backing array when there is room).
+func mayAliasParam(v ssa.Value, name string, seen map[ssa.Value]bool) bool {
+	if seen[v] {
+		return false
+	}
+	seen[v] = true
+	switch x := v.(type) {
+	case *ssa.Parameter:
+		return x.Name() == name
+	case *ssa.FreeVar:
+		return x.Name() == name
+	case *ssa.Phi:
+		for _, e := range x.Edges {
+			if mayAliasParam(e, name, seen) {
+				return true
+			}
+		}
+	case *ssa.Slice:
+		return mayAliasParam(x.X, name, seen)
+	case *ssa.ChangeType:
+		return mayAliasParam(x.X, name, seen)
+	case *ssa.UnOp:
+		// a local variable that lives in memory (captured or address-taken): look at what is stored into it
+		if al, ok := x.X.(*ssa.Alloc); ok && x.Op == token.MUL {
+			for _, r := range *al.Referrers() {
+				if st, ok := r.(*ssa.Store); ok && st.Addr == al && mayAliasParam(st.Val, name, seen) {
+					return true
+				}
+			}
+		}
+	case *ssa.Call:
+		if b, ok := x.Call.Value.(*ssa.Builtin); ok && b.Name() == "append" && len(x.Call.Args) > 0 {
+			return mayAliasParam(x.Call.Args[0], name, seen)
+		}
+	}
+	return false
+}
+
+// notRegisteredAfter: after the instruction (same block, later) or in a block its block dominates there must be an
+// `x = append(x, ...)` whose destination, or a map update whose map, has an access path matching pat.
+func notRegisteredAfter(in ssa.Instruction, pat string) string {
+	b := in.Block()
+	matches := func(x ssa.Instruction) bool {
+		switch v := x.(type) {
+		case *ssa.Call:
+			if bi, ok := v.Call.Value.(*ssa.Builtin); ok && bi.Name() == "append" && len(v.Call.Args) > 0 {
+				return pathMatches(valuePath(v.Call.Args[0]), pat)
+			}
+		case *ssa.MapUpdate:
+			return pathMatches(valuePath(v.Map), pat)
+		}
+		return false
+	}
+	after := false
+	for _, x := range b.Instrs {
+		if x == in {
+			after = true
+			continue
+		}
+		if after && matches(x) {
+			return ""
+		}
+	}
+	for _, d := range b.Parent().Blocks {
+		if d != b && b.Dominates(d) {
+			for _, x := range d.Instrs {
+				if matches(x) {
+					return ""
+				}
+			}
+		}
+	}
+	return "nothing made here is entered into " + pat + " afterwards (no append to / map update of it follows the site)"
+}
+
 // staleOnBackEdge: the loop-carried variable `name` (a phi at the header of the innermost loop around the instruction)
 // keeps its top-of-iteration value on a back edge that the instruction can reach. Returns "" if every such edge carries
 // a new value.
@@ -772,7 +848,16 @@ func runUnguardedRules(p *Program, id string) ([]*Gen, []string) {
 			}
 			sort.Slice(all, func(i, j int) bool { return fullName(all[i]) < fullName(all[j]) })
 			for _, f := range all {
-				collect(f)
+				_, short := ContractName(f)
+				skip := false
+				for _, ex := range splitList(kv["except-func"], ",") {
+					if ex == short {
+						skip = true
+					}
+				}
+				if !skip {
+					collect(f)
+				}
 			}
 		} else {
 			fn := p.LookupFunc(sp.Pkg.Path(), kv["func"])
@@ -808,6 +893,16 @@ func runUnguardedRules(p *Program, id string) ([]*Gen, []string) {
 					}
 					if skipSite {
 						continue
+					}
+					if wr := kv["when-ret"]; wr != "" {
+						// only returns whose N-th result has this shape (when-ret=N:PATTERN)
+						parts := strings.SplitN(wr, ":", 2)
+						var rn int
+						fmt.Sscanf(parts[0], "%d", &rn)
+						r, isRet := in.(*ssa.Return)
+						if !isRet || len(parts) != 2 || rn >= len(r.Results) || !pathMatches(valuePath(r.Results[rn]), parts[1]) {
+							continue
+						}
 					}
 					if wm := kv["when-map"]; wm != "" {
 						// only lookups / updates of a map with this access path
@@ -914,6 +1009,19 @@ func runUnguardedRules(p *Program, id string) ([]*Gen, []string) {
 							}
 						}
 					}
+					// the destination of an append must not share its backing array with a parameter (arg-not-alias=N:PARAM): the
+					// N-th argument is not the parameter itself, a sub-slice of it, or the result of appending to one of those
+					if ana := kv["arg-not-alias"]; ana != "" {
+						parts := strings.SplitN(ana, ":", 2)
+						var an int
+						fmt.Sscanf(parts[0], "%d", &an)
+						if c, isCall := in.(*ssa.Call); isCall && len(parts) == 2 && an < len(c.Call.Args) {
+							if mayAliasParam(c.Call.Args[an], parts[1], map[ssa.Value]bool{}) {
+								o.Pre = "sat"
+								o.Model = "argument " + fmt.Sprint(an) + " (" + valuePath(c.Call.Args[an]) + ") can share its backing array with parameter " + parts[1] + " (no copy in between)"
+							}
+						}
+					}
 					// the written location must be memory allocated in this function (target-fresh=1): no root other than a
 					// local allocation
 					if kv["target-fresh"] != "" {
@@ -955,6 +1063,15 @@ func runUnguardedRules(p *Program, id string) ([]*Gen, []string) {
 					// a loop-carried variable must be re-established after the site (then-updates=NAME): on every back edge of
 					// the enclosing loop that is reachable from the site, the variable's value is not simply the one it had at
 					// the top of the iteration
+					// what the site makes must be entered into a registry before the function goes on (then-registers=PAT OR PAT):
+					// in the site's block after it, or in a block the site's block dominates, there is an append to / a map
+					// update of a structure whose access path matches
+					if tr := kv["then-registers"]; tr != "" {
+						if why := notRegisteredAfter(in, tr); why != "" {
+							o.Pre = "sat"
+							o.Model = why
+						}
+					}
 					if tu := kv["then-updates"]; tu != "" {
 						if why := staleOnBackEdge(in, tu); why != "" {
 							o.Pre = "sat"
